@@ -60,11 +60,17 @@ led to: C03 plan "every pair of operations, then undo" and a built-in number-for
 a styled row / column for C03-m5/m6; C04 start states with content, sizes and hidden lines next to the last columns / rows
 and group moves whose last line alone leaves the grid for C04-m4; C15 (and C12–C14, same builder) a hidden line of the other
 axis inside the landing zones for C15-m5; C16 sheet names that must be quoted (with an apostrophe to double) and error
-literals in the cut formulas for C16-m5/m4; C24 every sequence of ≤3 links over {two external targets, internal} and of ≤3
-conditional formats over {empty format, fill, bold} for C24-m4/m6; C31 clear-all areas that hold the anchor in a later
+literals in the cut formulas for C16-m5/m4; C24 every sequence of ≤3 links over {{two external targets, internal}} and of ≤3
+conditional formats over {{empty format, fill, bold}} for C24-m4/m6; C31 clear-all areas that hold the anchor in a later
 column for C31-m6; an empty-format conditional format and a rename+rescope+redefine of a name in the common alphabet (the
 latter exposed a genuine C01 defect, repaired in /repo 4cbca90). C16-m6 is caught by C27 (orphan spill cell), not by C16:
-the statement leaves the vacated source cells open. Two first-round changes (C06-m1, C06-m3) turned out to fail the
+the statement leaves the vacated source cells open. Third round (C02, C06, C09, C12, C27, C32; the agents were stopped early for time and 11 changes kept): 7 were caught
+by their own check as it stood; C12-m4 (displaced formulas printed in the default locale) by C10 and C01, C27-m4 (pieces of a
+split multi-column descriptor re-inserted in reverse order) by C29, C27-m5 (spill ownership compared as (column,row)) by
+C31, C32-m5 (a sheet-local name resolving to its global namesake) by C02; they led to whole-column clears inside the
+imported seed's multi-column descriptors (C27 now reports `cols-order` itself), two spills anchored at mirrored positions
+and update/delete of a local name that shadows a global one (C01 now catches C32-m5) in the common alphabet.
+Two first-round changes (C06-m1, C06-m3) turned out to fail the
 repository's own xlsx tests and were moved to `seeded/rejected/`. Not caught by their own property's check but by a
 neighbour: see the table.
 """
